@@ -350,7 +350,11 @@ func (m *FloodSub) handleValidMessage(
 		return
 	}
 	verifhook.Point("floodsub.seen.gap")
-	m.seenMessages.Set(msgId, pkt, 0)
+	// Add is an atomic test-and-set: of several stream handlers receiving
+	// the same message concurrently, exactly one proceeds.
+	if err := m.seenMessages.Add(msgId, pkt, 0); err != nil {
+		return
+	}
 
 	pid, err := peer.IDB58Decode(pkt.GetFromPeerId())
 	if err != nil {
